@@ -178,6 +178,25 @@ def check_cli(res, net, names, aliases, elements, case, known):
     tab = [x.strip()[2:] for x in m.group(1).split(",") if x.strip()] if m else None
     if amac != aliases or (tab is not None and tab != aliases):
         res.violation("oracle", f"Enzo patch per-species tables {amac[:8]} / {tab and tab[:8]} are not the species list {aliases[:8]}", c2)
+    # tables of the patch: a network species that Enzo / Grackle already defines (whatever its spelling) gets no
+    # second field, the others one field each, in species order
+    from naunet.patches import EnzoPatch
+    canon = lambda nm: "e-" if nm in ("e-", "E-", "e", "E") else nm
+    enzo_names, grackle_names = set(EnzoPatch.enzo_defined_species_name), set(EnzoPatch.grackle_species_name)
+    want_new = [a for nm, a in zip(names, aliases) if canon(nm) not in enzo_names]
+    td = (p / "enzo" / "typedefs.h")
+    if td.exists():
+        t = td.read_text()
+        new = [(m.group(1), int(m.group(2))) for m in re.finditer(r"^\s*(\w+)Density\s*=\s*(\d+),", t, re.M) if int(m.group(2)) >= 104]
+        fu = re.search(r"FieldUndefined\s*=\s*(\d+)", t)
+        if [a for a, _ in new] != want_new or [k for _, k in new] != list(range(104, 104 + len(want_new))) or not fu or int(fu.group(1)) != 104 + len(want_new):
+            res.violation("oracle", f"Enzo patch typedefs.h adds the fields {new[:8]} (FieldUndefined {fu and fu.group(1)}), expected one field per species "
+                                    f"Enzo does not define: {want_new[:8]} from 104 (species {names[:8]})", c2)
+        res.count("enzo-typedefs")
+    mns = re.search(r"#define ENZO_NSPECIES (\d+)", hz)
+    want_ns = len(names) + len(EnzoPatch.grackle_species_name) - sum(1 for nm in names if canon(nm) in grackle_names) - 1
+    if not mns or int(mns.group(1)) != want_ns:
+        res.violation("oracle", f"Enzo patch ENZO_NSPECIES is {mns and mns.group(1)}, expected {want_ns} (species {names[:8]})", c2)
     res.count("enzo-patch")
 
 
@@ -188,6 +207,8 @@ FIXED = [
     {"reactions": [(["H", "#CO"], ["#H", "CO"]), (["CO"], ["#CO"])], "required": ["GRAIN0"]},
     {"reactions": [(["H", "H"], ["H2"]), (["H2", "CO"], ["H", "H", "CO"]), (["C", "O"], ["CO"])], "required": ["He", "Si", "SiO"]},
     {"reactions": [(["oH2", "pH2"], ["H2", "H2"]), (["oH3+", "e-"], ["oH2", "H"])], "required": ["D", "HD"]},
+    # the electron under the KROME spelling, through export -> render -> Enzo patch
+    {"reactions": [(["H+", "E"], ["H"]), (["H", "E"], ["H+", "E", "E"]), (["He+", "E"], ["He"]), (["N2", "H+"], ["N2H+", "H"]), (["C", "O"], ["CO"])], "required": ["H2", "D"]},
 ]
 FINDINGS = [
     ("label", {"reactions": [(["c-C3H2", "H"], ["l-C3H2", "H"])], "required": []}),
@@ -261,7 +282,7 @@ def run(res, info):
     nc = 2 if res.tier == "quick" else 12
     alias_sweep(res, model)
     for i, d in enumerate(FIXED):
-        check_net(res, model, d, ("fixed", i), render=True, cli=(i in (3, 4)))
+        check_net(res, model, d, ("fixed", i), render=True, cli=(i in (3, 4, 6)))
     for kind, d in FINDINGS:
         check_net(res, model, d, ("finding", kind), render=True)
     for i in range(n):
